@@ -200,7 +200,7 @@ Definition reno_clamp (r : reno) (cwnd : Z) : Z := Z.max (Z.min cwnd (rn_rwnd r)
 Definition reno_on_ack (r : reno) (len : Z) : outcome reno :=
   if len =? 0 then Ok r else
   if rn_in_fast_recovery r then
-    Ok (mkReno (rn_ssthresh r) (rn_mss r) (rn_ssthresh r) (rn_rwnd r) false false)
+    Ok (mkReno (Z.max (rn_ssthresh r) (rn_mss r)) (rn_mss r) (rn_ssthresh r) (rn_rwnd r) false false)
   else
     do inc <- (if rn_cwnd r <? rn_ssthresh r then Ok (Z.min len (rn_mss r))
                else if rn_cwnd r =? 0 then Panic
